@@ -40,6 +40,7 @@ pub struct RefRemapper {
     /// names / keys for which the model itself is ambiguous (two entries, same from-side key); never judged
     pub ambiguous_classes: HashSet<String>,
     pub ambiguous_members: HashSet<(String, String, String)>,
+    half_tables: HashMap<String, Table>,
 }
 
 #[derive(Clone, Debug, PartialEq, Eq)]
@@ -84,8 +85,12 @@ impl RefRemapper {
         }
         let mut tables: HashMap<String, Table> = HashMap::new();
         let mut ambiguous_members = HashSet::new();
+        let mut half_tables: HashMap<String, Table> = HashMap::new();
         for c in m.classes.values() {
-            let (Some(cf), Some(_ct)) = (&c.names[from], &c.names[to]) else { continue };
+            let Some(cf) = &c.names[from] else { continue };
+            // a class with a from-name but without a to-name is "unmapped" as a class; whether its members - which have counterparts -
+            // still map or fall under the class being unmapped is open (the statement does not say): their keys are kept apart
+            let half = c.names[to].is_none();
             let mut t = Table::default();
             let members = c.fields.iter().map(|(k, f)| (Kind::Field, &k.1, &f.names)).chain(c.methods.iter().map(|(k, m)| (Kind::Method, &k.1, &m.names)));
             {
@@ -101,12 +106,14 @@ impl RefRemapper {
                 }
             }
             // two classes with the same from-name: already flagged in ambiguous_classes
-            tables.insert(cf.clone(), t);
+            if half { half_tables.insert(cf.clone(), t); } else { tables.insert(cf.clone(), t); }
         }
-        Ok(RefRemapper { from, to, class, tables, ambiguous_classes, ambiguous_members })
+        Ok(RefRemapper { from, to, class, tables, ambiguous_classes, ambiguous_members, half_tables })
     }
 
     pub fn has_table(&self, class: &str) -> bool { self.tables.contains_key(class) }
+    /// a class without to-name declares (kind, name, desc) with names in both namespaces
+    pub fn half_named_declares(&self, class: &str, kind: Kind, name: &str, d: &str) -> bool { self.half_tables.get(class).is_some_and(|t| match kind { Kind::Field => t.fields.contains_key(&(name.to_string(), d.to_string())), Kind::Method => t.methods.contains_key(&(name.to_string(), d.to_string())) }) }
     pub fn class_opt(&self, c: &str) -> Option<&str> { self.class.get(c).map(|s| s.as_str()) }
     pub fn class<'a>(&'a self, c: &'a str) -> &'a str { apply(&self.class, c) }
     /// any class name: object class name or array class name (= array field descriptor)
